@@ -1,12 +1,16 @@
 package main
 
 import (
+	"encoding/json"
 	"fmt"
 	"net/http"
 	"net/http/httptest"
 	"net/url"
+	"os"
+	"path/filepath"
 	"strings"
 	"sync"
+	"sync/atomic"
 	"time"
 
 	"github.com/vicanso/elton"
@@ -47,7 +51,7 @@ func genKeyGroup(r *hx.Rand) []keyReq {
 func runKeys(seed uint64, n int, tier string, out string, replay string) {
 	rnd := hx.NewRand(seed)
 	sum := hx.NewSummary("keys", seed)
-	sum.Rule = "one case = a group of 24 near-identical requests (methods GET/HEAD, hosts differing by port/one byte/empty, URIs differing by one byte, by query order, by trailing space or slash; 10% with empty RequestURI so URL.String() is used) run through the real getKey, plus one dispatcher run (size 8..24) over those keys rejection-sampled into a single shard with 150 mixed lookups/removals; non-trivial = the group contains two requests differing only in one component; distinct by the group's key bytes; plus 50 near-identical keys of 8-4000 bytes (last byte / middle byte / method / host / only letter case differ) requested at random on a 16-slot store-backed dispatcher (constant eviction and rebuild from the persisted copy); and 16 goroutines hashing 4000 keys at once must get the shard hash a single goroutine gets"
+	sum.Rule = "one case = a group of 24 near-identical requests (methods GET/HEAD, hosts differing by port/one byte/empty, URIs differing by one byte, by query order, by trailing space or slash; 10% with empty RequestURI so URL.String() is used) run through the real getKey, plus one dispatcher run (size 8..24) over those keys rejection-sampled into a single shard with 150 mixed lookups/removals; non-trivial = the group contains two requests differing only in one component; distinct by the group's key bytes; plus 50 near-identical keys of 8-9000 bytes (last byte / middle byte / method / host / only letter case differ) requested at random on a 16-slot store-backed dispatcher (constant eviction and rebuild from the persisted copy); and 16 goroutines hashing 4000 keys at once must get the shard hash a single goroutine gets; 16 goroutines x 400 requests over 24 URLs through one cache middleware in parallel: own answers, one upstream fetch per URL, termination"
 	header := "From Coq Require Import List NArith ZArith.\nImport ListNotations.\nFrom Pike Require Import Base.Bytes Model.Key Model.Dispatcher Corr.C11Corr Corr.C06Corr.\nFrom PikeRun Require Import Consts.\n"
 	w := hx.NewCaseWriter(out, "keys", header, "list c06_case", "check_cases Consts.disp_consts", 12, sum)
 	distinct := hx.NewDistinct()
@@ -143,6 +147,9 @@ func runKeys(seed uint64, n int, tier string, out string, replay string) {
 	if crossServed != nil {
 		sum.ImplViolations = append(sum.ImplViolations, crossServed)
 	}
+	for _, v := range parallelKeysThroughMiddleware(out, sum) {
+		sum.ImplViolations = append(sum.ImplViolations, v)
+	}
 	if v := hashStableUnderConcurrency(sum); v != nil {
 		sum.ImplViolations = append(sum.ImplViolations, v)
 	}
@@ -152,6 +159,78 @@ func runKeys(seed uint64, n int, tier string, out string, replay string) {
 	w.Flush()
 	sum.DistinctNontrivial = distinct.Len()
 	sum.Write(out)
+}
+
+// parallelKeysThroughMiddleware: 16 goroutines send 24 URLs through ONE cache middleware at the same
+// time (no eviction, no purge, lifetime 300 s): every answer is the one made for its URL, every URL costs
+// exactly one upstream fetch, and the whole run ends (a deadlock between a hit reading its age and a
+// request entering Get is reported through inflight.json).
+func parallelKeysThroughMiddleware(out string, sum *hx.Summary) []map[string]interface{} {
+	const name = "parkeys"
+	cache.ResetDispatchers([]config.CacheConfig{{Name: name, Size: 51200, HitForPass: "5m"}})
+	defer cache.ResetDispatchers(nil)
+	s := server.NewServer(server.ServerOption{Cache: name})
+	handler := server.NewCache(s)
+	const nkeys = 24
+	var fetches [nkeys]atomic.Int64
+	var wrong, requests atomic.Int64
+	var firstWrong atomic.Value
+	done := make(chan struct{})
+	go func() {
+		var wg sync.WaitGroup
+		for g := 0; g < 16; g++ {
+			wg.Add(1)
+			go func(g int) {
+				defer wg.Done()
+				r := hx.NewRand(uint64(1000 + g))
+				for it := 0; it < 400; it++ {
+					k := r.Intn(nkeys)
+					host := []string{"par-a.example", "par-b.example"}[k%2]
+					uri := fmt.Sprintf("/parallel/%02d?v=%d", k, k%3)
+					req := httptest.NewRequest("GET", "http://"+host+uri, nil)
+					c := elton.NewContext(httptest.NewRecorder(), req)
+					want := host + uri
+					c.Next = func() error {
+						fetches[k].Add(1)
+						h := http.Header{}
+						h.Set("X-Made-For", want)
+						server.VerifSetHTTPResp(c, &cache.HTTPResponse{StatusCode: 200, Header: h, RawBody: []byte(want)})
+						server.VerifSetHTTPCacheMaxAge(c, 300)
+						return nil
+					}
+					requests.Add(1)
+					if err := handler(c); err != nil {
+						continue
+					}
+					if resp := server.VerifGetHTTPResp(c); resp == nil || resp.Header.Get("X-Made-For") != want {
+						wrong.Add(1)
+						firstWrong.CompareAndSwap(nil, "request for "+want+" was answered with another key's response")
+					}
+				}
+			}(g)
+		}
+		wg.Wait()
+		close(done)
+	}()
+	select {
+	case <-done:
+	case <-time.After(20 * time.Second):
+		b, _ := json.Marshal(map[string]interface{}{"family": "keys", "kind": "hang", "what": "16 goroutines x 400 requests over 24 URLs through one cache middleware did not finish within 20 s (requests parked for ever)", "requests_started": requests.Load()})
+		_ = os.WriteFile(filepath.Join(out, "inflight.json"), b, 0o644)
+		os.Exit(3)
+	}
+	sum.Distribution["parallel_middleware_requests"] = int(requests.Load())
+	var vs []map[string]interface{}
+	if wrong.Load() > 0 {
+		vs = append(vs, map[string]interface{}{"property": "C06+C01", "kind": "cross-served-under-parallel-traffic", "count": wrong.Load(), "first": firstWrong.Load(), "same_key": "parallel traffic on 24 keys"})
+	}
+	for k := 0; k < nkeys; k++ {
+		if n := fetches[k].Load(); n != 1 {
+			vs = append(vs, map[string]interface{}{"property": "C01+C06", "kind": "upstream-fetches-per-key-under-parallel-traffic", "key_index": k, "upstream_fetches": n, "expected": 1, "same_key": "parallel traffic on 24 keys, nothing evicted or purged, lifetime 300 s"})
+			break
+		}
+	}
+	return vs
 }
 
 // hashStableUnderConcurrency: the shard of a key is a function of the key alone — 16 goroutines hashing
@@ -252,7 +331,7 @@ func longKeysWithStore(rnd *hx.Rand, nreq int, sum *hx.Summary) map[string]inter
 	handler := server.NewCache(s)
 	type kreq struct{ method, host, uri string }
 	var keys []kreq
-	for _, l := range []int{8, 60, 250, 500, 512, 520, 700, 1024, 2000, 4000} {
+	for _, l := range []int{8, 60, 250, 500, 512, 520, 700, 1024, 2000, 4000, 4096, 5000, 9000} {
 		base := "/" + strings.Repeat("p", l) + "?page="
 		mid := []byte(base)
 		mid[len(mid)/2] = 'q'
@@ -266,6 +345,7 @@ func longKeysWithStore(rnd *hx.Rand, nreq int, sum *hx.Summary) map[string]inter
 		kreq{"GET", "long.example", "/DOCS/README?PAGE=A"}, kreq{"GET", "long.example", "/docs/readme?page=A"})
 	wrong, hits := 0, 0
 	var first string
+	seenKey := map[string]bool{}
 	for i := 0; i < nreq; i++ {
 		k := keys[rnd.Intn(len(keys))]
 		req := httptest.NewRequest(k.method, "http://"+k.host+k.uri, nil)
@@ -293,6 +373,17 @@ func longKeysWithStore(rnd *hx.Rand, nreq int, sum *hx.Summary) map[string]inter
 					got = resp.Header.Get("X-Made-For")
 				}
 				first = fmt.Sprintf("request %s %s (URI of %d bytes) was answered with the response made for %q", k.method, k.host, len(k.uri), got)
+			}
+		}
+		// a key that was never requested before has no entry anywhere: its first request is the fetcher
+		sk := k.method + " " + k.host + " " + k.uri
+		if !seenKey[sk] {
+			seenKey[sk] = true
+			if st := server.VerifGetCacheStatus(c); st != cache.StatusFetching {
+				wrong++
+				if first == "" {
+					first = fmt.Sprintf("the first request ever for %s %s (URI of %d bytes) was labelled %s instead of fetching", k.method, k.host, len(k.uri), st.String())
+				}
 			}
 		}
 	}
